@@ -108,6 +108,14 @@ def write_file(res, tracks, path):
                 t.append(mido.MetaMessage("key_signature", key=e["k"], time=e["dt"]))
             elif e["ty"] == "text":
                 t.append(mido.MetaMessage("text", text="x", time=e["dt"]))
+            elif e["ty"] == "pw":        # channel events the library has no counterpart for: only their delta times matter
+                t.append(mido.Message("pitchwheel", pitch=100, channel=e.get("ch", 0), time=e["dt"]))
+            elif e["ty"] == "at":
+                t.append(mido.Message("aftertouch", value=64, channel=e.get("ch", 0), time=e["dt"]))
+            elif e["ty"] == "sysex":
+                t.append(mido.Message("sysex", data=[1, 2], time=e["dt"]))
+            elif e["ty"] == "tempo":
+                t.append(mido.MetaMessage("set_tempo", tempo=400000, time=e["dt"]))
         mf.tracks.append(t)
     mf.save(path)
 
@@ -189,16 +197,27 @@ def random_track(rng, ch, nmax=8, sig=True, ones=False):
     for _ in range(rng.randint(1, nmax)):
         dt = 1 if ones else rng.choice([0, 0, 1, 1, 2, 3, 5, 7, 11, 30, 100])
         r = rng.random()
+        if rng.random() < .12:
+            # a run of events without a counterpart in the library, each with its own delta time
+            for _ in range(rng.randint(1, 3)):
+                evs.append({"ty": rng.choice(["pw", "at", "sysex", "tempo", "text"]), "ch": chans[0], "dt": rng.choice([0, 1, 3, 7, 30])})
         if open_ and r < .5:
             c, p = rng.choice(sorted(open_))
-            del open_[(c, p)]
+            open_[(c, p)] -= 1
+            if open_[(c, p)] == 0:
+                del open_[(c, p)]
             evs.append({"ty": "off", "p": p, "ch": c, "dt": dt, "as_on0": rng.random() < .5, "v": 0})
         elif r < .85:
             p = rng.choice([60, 61, 62, 72])
             c = rng.choice(chans)
             if (c, p) in open_:
+                if rng.random() < .7:
+                    continue
+                # a re-strike while the note still sounds (nested: it needs its own note-off later)
+                open_[(c, p)] += 1
+                evs.append({"ty": "on", "p": p, "ch": c, "v": rng.randint(1, 127), "dt": dt})
                 continue
-            open_[(c, p)] = True
+            open_[(c, p)] = 1
             evs.append({"ty": "on", "p": p, "ch": c, "v": rng.randint(1, 127), "dt": dt})
         elif sig and r < .93:
             evs.append({"ty": "ts", "n": rng.choice([2, 3, 4, 6]), "d": rng.choice([4, 8]), "dt": dt})
@@ -211,7 +230,8 @@ def random_track(rng, ch, nmax=8, sig=True, ones=False):
         if dangling:
             dangling = False
             continue
-        evs.append({"ty": "off", "p": p, "ch": c, "dt": rng.choice([0, 1, 2, 9]), "v": 0})
+        for _ in range(open_[(c, p)]):
+            evs.append({"ty": "off", "p": p, "ch": c, "dt": rng.choice([0, 1, 2, 9]), "v": 0})
     if rng.random() < .1:
         evs.insert(rng.randrange(len(evs) + 1), {"ty": "off", "p": rng.choice([60, 61, 62, 72]), "ch": rng.choice(chans),
                                                  "dt": rng.choice([0, 1, 5]), "v": 0, "as_on0": rng.random() < .5})
